@@ -307,7 +307,7 @@ def shape_builtin(item, ob):
             op = {'%': 'rem', '//': 'div_floor', '%%': 'mod_floor', '/!': 'div_floor'}[name]
             if name == '/!' and py_exact('mod_floor', cx[2], cy[2]) != 0: return {'program': prog, 'expect': {'prefix': 'ERR'}}
             q = py_exact(op, cx[2], cy[2]); lvl = 'Int' if rank == 0 else 'Rational'
-            return {'program': prog, 'expect': {'equals': 'OK ' + (str(q.numerator) if lvl == 'Int' else f'{q.numerator}/{q.denominator}q')}}
+            return {'program': prog, 'expect': {'equals': 'OK ' + (str(q.numerator) if lvl == 'Int' else repr_q(q))}}
         return {'program': prog, 'expect': {'not_panic': 1}}
     opn = {'%': 'rem', '//': 'div_floor', '%%': 'mod_floor', '/!': 'div_floor'}[name]
     for pc, kind, res, lg in E.explore(run):
